@@ -148,12 +148,27 @@ def selection_rules(R, ro, P="C05"):
                         best_names.add(t.id)
         R.need(best_names, "idiom: variable remembering the best priority not found in %s" % sel.qualname)
 
+        # "there is no candidate yet" may be kept in a boolean local: False before the loop, set to True exactly where the candidate is stored
+        cand_flags = set()
+        for cs in cand_stores:
+            blk = q.enclosing_block(cs.ast) if hasattr(q, "enclosing_block") else None
+            sibs = blk if blk is not None else []
+            for sb in sibs:
+                if isinstance(sb, ast.Assign) and isinstance(sb.value, ast.Constant) and sb.value.value is True:
+                    for t in sb.targets:
+                        if isinstance(t, ast.Name):
+                            inits = [v for k_, v in common.assigned_values(sel.node, t.id) if k_ == "expr"]
+                            if inits and all(isinstance(v, ast.Constant) and isinstance(v.value, bool) for v in inits) and any(v.value is False for v in inits):
+                                cand_flags.add(t.id)
+
         def argmax(node):
             if node.kind != "test":
                 return None
             k, s, pos = q.atom_test(node.ast)
             if k == "isnone" and (s == cand or s in best_names):
                 return "T" if pos else "F"
+            if k == "truth" and s in cand_flags:
+                return "F" if pos else "T"
             if k == "lt":
                 a, b = s
                 if a in best_names and b in cur_names:  # best < cur  -> replace
@@ -178,6 +193,8 @@ def selection_rules(R, ro, P="C05"):
             k, s, pos = q.atom_test(nd.ast)
             if k == "isnone" and (s == cand or s in best_names):
                 return e.label == ("T" if pos else "F")     # we are on the "no candidate yet" side
+            if k == "truth" and s in cand_flags:
+                return e.label == ("F" if pos else "T")
             return True
         p = cfg.find_path(iter_starts, list(cand_stores), N, cut_nodes=lt_tests, keep_edge=first_edge)
         R.check(p is not None, P + ".ARGMAX", "%s:first" % sel.qualname, site,
@@ -359,6 +376,10 @@ def run(R):
     common.no_mutation_while_iterating(R, "C05.SELECT-STABLE", ("scheduler.TaskScheduler", "batching.BatchBase"))
     common.pending_removal_tolerant(R, ro, "C05.SELECT-STABLE")
     common.scheduler_lookup_fresh(R, "C05.EVENTS")
+    # the priority rule is about the batches that are pending when nothing else can run: a task whose new dependencies were not
+    # scheduled in this walk (a stale dependencies-scheduled flag) has not added its requests yet, so a smaller batch goes first
+    from .c04 import revisit_rules
+    revisit_rules(R, ro, "C05.REVISIT")
 
     gp = ro.BatchBase.methods.get("get_priority")
     R.need(gp is not None, "anchor vanished: BatchBase.get_priority")
